@@ -373,15 +373,11 @@ def leafward_moments(t_i, a_j, b_j, y_ij, mu_ij):
     return logl, mn_j, va_j
 
 
-@numba_jit(_unituple(_f, 5)(_f, _f, _f, _f, _f, _f))
-def unphased_moments(a_i, b_i, a_j, b_j, y_ij, mu_ij):
+@numba_jit(_unituple(_f, 3)(_f, _f, _f, _f, _f, _f))
+def _unphased_moments_one_sided(a_i, b_i, a_j, b_j, y_ij, mu_ij):
     r"""
-    log p(t_i, t_j) := \
-        log(t_i + t_j) * y_ij - mu_ij * (t_i + t_j) + \
-        log(t_i) * (a_i - 1) - b_i * t_i + \
-        log(t_j) * (a_j - 1) - b_j * t_j
-
-    Returns normalizing constant, E[t_i], V[t_i], E[t_j], V[t_j].
+    Normalizing constant, E[t_j], V[t_j] under the density in the docstring
+    of `unphased_moments`.
     """
 
     a = a_j
@@ -391,7 +387,7 @@ def unphased_moments(a_i, b_i, a_j, b_j, y_ij, mu_ij):
     z = (mu_ij + b_j) / t if t > 0 else nan
 
     if not _valid_hyp2f1(a, b, c, 1 - z):
-        return nan, nan, nan, nan, nan
+        return nan, nan, nan
 
     hyp2f1 = hypergeo._hyp2f1_laplace
     f0 = hyp2f1(a + 0, b + 0, c + 0, 1 - z)
@@ -408,9 +404,30 @@ def unphased_moments(a_i, b_i, a_j, b_j, y_ij, mu_ij):
     sq_j = d2 / t**2
     va_j = sq_j - mn_j**2
 
-    mn_i = b / t - mn_j * z
-    sq_i = sq_j * z**2 + (b + 1) * (mn_i - mn_j * z) / t
-    va_i = sq_i - mn_i**2
+    return logl, mn_j, va_j
+
+
+@numba_jit(_unituple(_f, 5)(_f, _f, _f, _f, _f, _f))
+def unphased_moments(a_i, b_i, a_j, b_j, y_ij, mu_ij):
+    r"""
+    log p(t_i, t_j) := \
+        log(t_i + t_j) * y_ij - mu_ij * (t_i + t_j) + \
+        log(t_i) * (a_i - 1) - b_i * t_i + \
+        log(t_j) * (a_j - 1) - b_j * t_j
+
+    Returns normalizing constant, E[t_i], V[t_i], E[t_j], V[t_j].
+    """
+
+    # The density is symmetric under exchange of i and j, so get the moments of
+    # t_i in the same way as those of t_j.  (Using the identity
+    # E[t_i] = (a_i + a_j + y_ij) / (mu_ij + b_i) - E[t_j] * z instead
+    # amplifies the error of the Laplace approximation without bound when
+    # E[t_i] << E[t_j].)
+    logl, mn_j, va_j = _unphased_moments_one_sided(a_i, b_i, a_j, b_j, y_ij, mu_ij)
+    _, mn_i, va_i = _unphased_moments_one_sided(a_j, b_j, a_i, b_i, y_ij, mu_ij)
+
+    if np.isnan(mn_i) or np.isnan(mn_j):
+        return nan, nan, nan, nan, nan
 
     return logl, mn_i, va_i, mn_j, va_j
 
